@@ -29,13 +29,27 @@ Import ListNotations.
 (* ================================================================== *)
 (* Equality *)
 
-(* __eq__ answers True exactly when: same length; same target (every pair of
+(* Branch structure of __eq__ on arbitrary model frames (tf_equiv still mentions the loop body feat_eq; its meaning
+   is feat_eq_views below, and the two are combined in tf_eq_iff_views).
+   __eq__ answers True exactly when: same length; same target (every pair of
    entries close -- equal_nan is NOT set for the target); same col_names_dict
    (as dicts); and every feature has a close feature of the same storage under
    the same stype (missing matching missing).  Branch order as written. *)
 Theorem tf_eq_iff : forall close a b, tf_eq close a b = Some true <-> tf_equiv close a b.
 Proof. exact tf_eq_iff_proof. Qed.
 Print Assumptions tf_eq_iff.
+
+(* HEADLINE.  For frames of n and n' rows stored from views, `a == b` is True exactly when `frames_equal` holds -- a
+   statement on the views alone (Model/FrameSpec.v: same row count; target entries pairwise close, a missing target
+   entry never close; the same names per stype; for every stype a view of the same storage kind and shape whose cells
+   are all close, missing matching missing).  The implementation side compares flattened values and offsets; the
+   two definitions share nothing but `pclose`. *)
+Theorem tf_eq_iff_views : forall close n n' vs vs' nm nm' yy yy' ov ov',
+  frame_wf n vs yy ov -> frame_wf n' vs' yy' ov' -> NoDup (map fst vs') ->
+  (tf_eq close (frame_of vs nm yy ov) (frame_of vs' nm' yy' ov') = Some true
+   <-> frames_equal close n vs nm yy n' vs' nm' yy').
+Proof. exact tf_eq_iff_views_proof. Qed.
+Print Assumptions tf_eq_iff_views.
 
 (* On stored views, the per-stype comparison of __eq__ is closeness of the data
    cell by cell, for every storage kind (flattened values + offsets on the
